@@ -7,6 +7,9 @@ CONSTANTS
   MaxT = 2
   Phases <- obscure_q2_Phases
   ShapeSet <- obscure_q2_Shapes
+  Signers = {"s1", "s2"}
+  Recipients = {"r1", "r2"}
+  Policies <- obscure_q2_Policies
   CfgName = "obscure_q2"
 INIT Init
 NEXT Next
